@@ -1524,7 +1524,7 @@ bool ScriptVM::Process(ScriptContext& context, uinttime_t interruptTime)
             break;
         }
 
-        if (interruptTime && cmdTime >= interruptTime) {
+        if (interruptTime && cmdTime >= interruptTime && state == vmState_e::Running) {
             throw ScriptVMErrors::CommandOverflow();
         }
 
